@@ -53,7 +53,7 @@ TSolveThrew == IsEvent("SolveThrew") /\ Step /\ seen' = <<>> /\ exp' = <<>> /\ s
 TSolveEnter == /\ IsEvent("SolveEnter") /\ Step /\ Sync(<<>>) /\ seen' = <<>> /\ exp' = <<>> /\ fm' = NoFm
                /\ st' = [st EXCEPT !.nu1 = Tr[l].nu1, !.nu2 = Tr[l].nu2, !.its = Tr[l].fmgIts, !.fkind = KindName(Tr[l].fmgKind),
                                     !.kind = KindName(Tr[l].kind), !.ext = Tr[l].extMode # 0, !.fmg = Tr[l].fmg # 0,
-                                    !.xsFmg = (Tr[l].fgs = 0), !.insolve = TRUE]
+                                    !.xsFmg = (Tr[l].fgs = 0 /\ Tr[l].extMode # 3), !.insolve = TRUE]
 TInitZero == IsEvent("InitZero") /\ Step /\ ~st.fmg /\ Sync(PInitZero) /\ seen' = <<>> /\ exp' = <<>> /\ UNCHANGED <<st, fm>>
 TFMGDirect == /\ IsEvent("FMGDirect") /\ Step /\ st.fmg /\ Tr[l].level = st.L - 1 /\ Sync(PFMGDirect(CC))
               /\ seen' = <<>> /\ exp' = <<>> /\ fm' = [lev |-> st.L - 1, it |-> st.its] /\ UNCHANGED st
